@@ -69,7 +69,7 @@ MANIFEST = dict(
          "generated histories. Premise, not proved here: that the real engines are C03's model (C03's own correspondence). "
          "That editor histories reach only valid compositions with a word for every buffered syllable is C01's invariant, now "
          "connected: history_ledger keeps TilesAlong as a hypothesis, history_ledger_linked has none beyond C01's EnvOK and the "
-         "exclusion of C01's known class F02/F03 (and of jump_* on an open phrase list, C01's coverage gap); C03's engine "
+         "exclusion of C01's known class F02/F03 (jump_* on an open phrase list is included since C01 covers it); C03's engine "
          "theorems reach buffers of at most 128 symbols, beyond that the engine clause is assumed. Trusted: Lean kernel (standard axioms), the read-only snapshot hook, harness + compiled "
          "model driver. F29 (commit string outliving its key) was a genuine defect, repaired by fix commit 1c4da4f; "
          "reintroducing it is reported with a 3-step history.",
